@@ -131,46 +131,50 @@ theorem writeCalls_complete : ∀ (k : Nat) (t : Tx),
 
 open OsmoVerif.Msgb OsmoVerif.SercommMsgb
 
-theorem sendMax_eq : sendMax = 512 := by decide
-theorem sendAlloc_eq : sendAlloc = 512 := by decide
-theorem writeBuf_eq : writeBuf = 256 := by decide
-theorem window_eq : window = 7 := by decide
+/-- what the property needs of the two literals in `hdlc_send_to_phone`: every accepted length fits the
+tailroom of the buffer allocated for it, and that allocation is one `sercomm_alloc_msgb` can serve -/
+theorem sendMax_le_alloc : sendMax ≤ sendAlloc := by decide
+theorem sendAlloc_pos : 1 ≤ sendAlloc := by decide
+theorem sendAlloc_le : sendAlloc ≤ 65531 := by decide
+theorem window_pos : 1 ≤ window := by decide
 
 /-- `len > 512`: dropped before anything is allocated -/
-theorem hdlcSend_tooMuch (t : CTx) (dlci : Nat) (data : List Nat) {len : Int} (h : len > 512) :
+theorem hdlcSend_tooMuch (t : CTx) (dlci : Nat) (data : List Nat) {len : Int} (h : len > (sendMax : Int)) :
     hdlcSendToPhone t dlci data len = .tooMuch := by
-  simp [hdlcSendToPhone, sendMax_eq, h]
+  simp [hdlcSendToPhone, h]
 
 /-- a negative `len` passes the `len > 512` test; converted to `unsigned int` it passes the `(int)`
 comparison in `msgb_put` too and the tail pointer leaves the buffer -/
 theorem hdlcSend_negative (t : CTx) (dlci : Nat) (data : List Nat) {len : Int} (h0 : len < 0)
     (h1 : -2147483648 ≤ len) : hdlcSendToPhone t dlci data len = .fault (.msgb .oob) := by
-  have hn : ¬ len > (sendMax : Int) := by rw [sendMax_eq]; omega
+  have hn : ¬ len > (sendMax : Int) := by omega
   have hbig : ¬ (len % 4294967296).toNat < 2147483648 := by omega
   have hlt : (len % 4294967296).toNat < 4294967296 := by omega
-  simp only [hdlcSendToPhone, hn, if_false, sendAlloc_eq, sercommAlloc_small (n := 512) (by decide) (by decide)]
-  rw [put_huge (scBuf_inv (by decide)) hbig hlt]
+  simp only [hdlcSendToPhone, hn, if_false, sercommAlloc_small sendAlloc_pos sendAlloc_le]
+  rw [put_huge (scBuf_inv sendAlloc_le) hbig hlt]
 
 /-- `0 ≤ len ≤ 512` octets of the caller's data, a DLCI inside the queue array: the message is queued —
 no `MSGB_ABORT`, the buffer holds exactly `data[0 .. len)` behind the two header octets — and this is
 the abstract `sercomm_sendmsg` of that payload -/
 theorem hdlcSend_ok {ct : CTx} {t : Tx} (hr : TxRel ct t) {dlci : Nat} {data : List Nat} {len : Int}
-    (h0 : 0 ≤ len) (h1 : len ≤ 512) (hd : len.toNat ≤ data.length) (hq : dlci < ct.queues.length) :
+    (h0 : 0 ≤ len) (h1 : len ≤ (sendMax : Int)) (hd : len.toNat ≤ data.length) (hq : dlci < ct.queues.length) :
     ∃ ct' t', hdlcSendToPhone ct dlci data len = .sent ct' ∧
       sendmsg t dlci (data.take len.toNat) = some t' ∧ TxRel ct' t' ∧ ct'.queues.length = ct.queues.length := by
-  have hn : ¬ len > (sendMax : Int) := by rw [sendMax_eq]; omega
-  have hmod : (len % 4294967296).toNat = len.toNat := by omega
-  have hb := scBuf_rxBuf (size := 512) (by decide)
+  have hma := sendMax_le_alloc
+  have hn : ¬ len > (sendMax : Int) := by omega
+  have hmod : (len % 4294967296).toNat = len.toNat := by have := sendAlloc_le; omega
+  have hb := scBuf_rxBuf (size := sendAlloc) sendAlloc_le
   have hlen : (data.take len.toNat).length = len.toNat := by simp; omega
   -- msgb_put + memcpy is putBytes of the first `len` octets
-  obtain ⟨m, hm⟩ := putBytes_succeeds hb.inv (bs := data.take len.toNat) (by rw [hlen]; show 4 + len.toNat ≤ 512 + 4; omega)
+  obtain ⟨m, hm⟩ := putBytes_succeeds hb.inv (bs := data.take len.toNat)
+    (by rw [hlen]; show 4 + len.toNat ≤ sendAlloc + 4; omega)
   obtain ⟨im, hbody, hdat, _, _, _⟩ := putBytes_ok hb.inv hm
   simp only [putBytes, bind, Except.bind, hlen] at hm
   obtain ⟨ct', t', hs, ha, hrel, hl⟩ := csendmsg_rel hr im (by rw [hdat]; decide) hq
   rw [hbody, scBuf_body, List.nil_append] at ha
   refine ⟨ct', t', ?_, ha, hrel, hl⟩
-  simp only [hdlcSendToPhone, hn, if_false, sendAlloc_eq, sercommAlloc_small (n := 512) (by decide) (by decide), hmod]
-  cases hp : put (scBuf 512) len.toNat with
+  simp only [hdlcSendToPhone, hn, if_false, sercommAlloc_small sendAlloc_pos sendAlloc_le, hmod]
+  cases hp : put (scBuf sendAlloc) len.toNat with
   | error f => rw [hp] at hm; cases hm
   | ok r =>
     obtain ⟨m1, dest⟩ := r
@@ -214,12 +218,13 @@ theorem read_le (fd : Fd) (n : Nat) : (fd.read n).1 ≤ n := by
 theorem slide_spec {buffer : List Nat} {bufptr : Nat} (hp : bufptr ≤ window) (hl : buffer.length = window) :
     (slide window buffer bufptr).2.1 + (slide window buffer bufptr).2.2 = window ∧
     1 ≤ (slide window buffer bufptr).2.2 ∧ (slide window buffer bufptr).1.length = window := by
-  have hw := window_eq
+  have hw := window_pos
   unfold slide
   by_cases h : window ≤ bufptr
   · simp only [h, if_true]
     refine ⟨by omega, by omega, ?_⟩
-    simp [hl, hw]
+    simp only [List.length_append, List.length_take, List.length_drop, hl]
+    omega
   · simp only [h, if_false]
     exact ⟨by omega, by omega, hl⟩
 
